@@ -280,7 +280,10 @@ Definition out_ok (c : ctx) (used : list N) (o : oprop) : Prop :=
     real_out_size c (o_total_ada o) gs <= o_size o.
 
 Lemma group_insert_ne pol a gs : group_insert pol a gs <> [].
-Proof. destruct gs as [|[k l] t]; cbn [group_insert]; [discriminate|]. destruct (pol =? k); discriminate. Qed.
+Proof.
+  unfold group_insert. destruct (group_has pol gs) eqn:E; [|discriminate].
+  destruct gs as [|[k l] t]; [discriminate|]. cbn [group_update]. destruct (pol =? k); discriminate.
+Qed.
 
 Lemma groups_of_nil_iff c assets : groups_of c assets = [] <-> assets = [].
 Proof.
